@@ -177,4 +177,8 @@ impl Step {
 pub struct Scenario {
     pub cfg: Cfg,
     pub steps: Vec<Step>,
+    /// append a benign continuation (reconnect with session present, conformant broker, poll
+    /// until quiescent) after the script
+    #[serde(default)]
+    pub drain: bool,
 }
